@@ -92,18 +92,18 @@ theorem scan_collects (o : ListOpts) (t : Seq) : ∀ (items : List FileItem) (bs
     requested style — whose range text is the compressed list of ALL their numbers. -/
 theorem find_complete (lookup : Bytes → DirSpec) (pat : Bytes) (st : PadStyle) (hidden : Bool)
     (fs : Seq) (entries : List Entry) (w : Nat)
-    (hp : Seq.parse st pat = .ok fs) (hl : lookup fs.dir = some entries)
+    (hp : Seq.parse st pat = .ok fs) (hl : lookup (openDir fs.dir) = some entries)
     (hnd : ∀ e ∈ entries, e.kind ≠ .dangling)
     (toks : List Bytes)
     (htoks : toks = candToks ⟨false, hidden, st⟩ fs
-        ((entries.filter fun e => e.kind = .file ∨ e.kind = .linkFile).map fun e => ⟨dirPrefix fs.dir, e.name⟩))
+        ((entries.filter fun e => e.kind = .file ∨ e.kind = .linkFile).map fun e => ⟨dirPrefix (openDir fs.dir), e.name⟩))
     (h2 : 2 ≤ toks.length) (hw : ∀ tk ∈ toks, tk.length = w) :
     ∃ s, findSequenceOnDisk lookup pat st false hidden = .ok (some s) ∧
       s.dir = fs.dir ∧ s.base = fs.base ∧ s.ext = fs.ext ∧ s.style = st ∧
       s = (rebuild st fs.dir fs.base (framesToFrameRange (toks.map atoiOr0) true 0)
             (padChars st w) fs.ext).setPaddingStyle st := by
   obtain ⟨bs, hscan, hinv⟩ := scan_collects ⟨false, hidden, st⟩ fs
-    ((entries.filter fun e => e.kind = .file ∨ e.kind = .linkFile).map fun e => ⟨dirPrefix fs.dir, e.name⟩)
+    ((entries.filter fun e => e.kind = .file ∨ e.kind = .linkFile).map fun e => ⟨dirPrefix (openDir fs.dir), e.name⟩)
     [] [] [] (Or.inl ⟨rfl, rfl⟩)
   rw [List.nil_append, ← htoks] at hinv
   have hne : toks ≠ [] := by intro h0; rw [h0] at h2; simp at h2
